@@ -15,6 +15,26 @@ pub(crate) fn lat_coord_i32(k: i32) -> Coord<i32> {
     Coord { x, y }
 }
 
+/// i16 lattice: 16-bit multipliers keep the SAT instances of orientation-based code small
+#[cfg(kani)]
+pub(crate) fn lat_coord_i16(k: i16) -> Coord<i16> {
+    let x: i16 = kani::any();
+    let y: i16 = kani::any();
+    kani::assume(-k <= x && x <= k && -k <= y && y <= k);
+    Coord { x, y }
+}
+
+#[cfg(kani)]
+pub(crate) fn lat_ring_i16(n: usize, k: i16) -> LineString<i16> {
+    let mut v = Vec::with_capacity(8);
+    let mut i = 0;
+    while i < n {
+        v.push(lat_coord_i16(k));
+        i += 1;
+    }
+    LineString(v)
+}
+
 #[cfg(kani)]
 pub(crate) fn lat_coord_i64(k: i64) -> Coord<i64> {
     let x: i64 = kani::any();
